@@ -5,7 +5,7 @@ cd "$(dirname "$0")/.." || exit 2
 tmpd=$(mktemp -d /tmp/seedsall_XXXXXX)
 ls seeded | xargs -P 4 -I{} sh -c 'p=$(echo {} | cut -c1-3); cp seeded/{}/patch.diff '"$tmpd"'/{}.diff; cp seeded/{}/demo.py '"$tmpd"'/{}.py; timeout 3600 tools/seedtest.py $p '"$tmpd"'/{}.diff '"$tmpd"'/{}.py {} 2>&1 | grep -v "^WARN" | tail -2 | tr "\n" " " | cut -c1-330 > '"$tmpd"'/{}.txt'
 : > seeds_summary.txt.new
-for s in $(ls seeded); do printf "%s  " "$s" >> seeds_summary.txt.new; cat $tmpd/$s.txt >> seeds_summary.txt.new; echo >> seeds_summary.txt.new; done
+for s in $(ls seeded); do printf "%s  %s\n" "$s" "$(cat $tmpd/$s.txt)" >> seeds_summary.txt.new; done
 mv seeds_summary.txt.new seeds_summary.txt
 rm -rf $tmpd
 echo done
